@@ -30,7 +30,7 @@ func lookupNode[T any](urlTree *URLTree[T], url string) lookupNodeResult[T] {
 	var params map[string]string
 	var foundWildcardNode *Node[T]
 	urlPath := ""
-	for _, urlPart := range splitURL {
+	for partIndex, urlPart := range splitURL {
 		if currentNode.WildcardChild != nil {
 			foundWildcardNode = currentNode.WildcardChild
 		}
@@ -40,6 +40,18 @@ func lookupNode[T any](urlTree *URLTree[T], url string) lookupNodeResult[T] {
 			delimiter := getDelimiter(urlPart)
 			urlPath += delimiter + urlPart.Value
 			continue
+		}
+
+		if urlPart.Value == wildcard && partIndex == len(splitURL)-1 &&
+			currentNode.WildcardChild != nil {
+			// Lookup of a declared pattern that ends with a wildcard: its own node is the
+			// wildcard child, not a path parameter that happens to accept the "*" segment
+			return buildLookupNodeResult(
+				true,
+				currentNode.WildcardChild,
+				params,
+				urlPath+getDelimiter(urlPart)+wildcard,
+			)
 		}
 
 		parametricChild := currentNode.ParametricChild.Child
